@@ -171,6 +171,9 @@ def handle (op : String) (j : Json) : Except String Json := do
   | "c01.denote" =>
     let lines ← getArr strOfJ j "lines"
     .ok (resJ chartJ (denote lines))
+  | "c01.file_lines" =>
+    -- what `read_file` makes of a file's text: universal newlines, then `split("\n")`
+    .ok (okJson (listToJson sJ (fileLines (← gS j "text"))))
   | "c01.wf" =>
     -- every line that the sections [TimingPoints] / [HitObjects] contain is a line of the dialect
     let lines ← getArr strOfJ j "lines"
